@@ -471,7 +471,7 @@ def gen_synth_part(rng, lf_any_leader=False):
             b["leader"] = "A"
             pos = lo.index(klev[-1])
             below = {t_: len([x for x in lo[pos + 1:] if x.rstrip("0123456789") in decl[t_]]) for t_ in ("A", "B")}
-            if lf_any_leader and below["A"] == below["B"] and below["A"] > 0:
+            if lf_any_leader and below["A"] == below["B"] == 1 and "M" not in part and "N" not in part:
                 # (same depth below the rank: see gen_synth)
                 b["leader"] = rng.choice(["A", "B"])
         bl.append({"component": c, "bindings": [b]})
